@@ -103,6 +103,10 @@ def flow(name):
     global FLOWS
     if FLOWS is None:
         FLOWS = flows()
+    if name == "i64_ss":
+        # simple shear x-z typed with integer literals: the callable returns int64 arrays
+        Li = np.array([[0, 0, 2], [0, 0, 0], [0, 0, 0]])
+        return Flow("i64_ss", lambda t, x, Li=Li: Li.copy(), lambda t: np.zeros(3, dtype=np.int64), const=Li.astype(float))
     if name == "st_gen":
         # environment answer "the callable hands out the SAME array object on every call"
         # (un-normalised generic gradient); built afresh for every request so that a tree that
@@ -159,6 +163,8 @@ F0S = {
     "stretch": np.diag([1.5, 0.9, 1.1]),
     "rotstretch": None,  # filled lazily (needs alph)
     "generic": np.array([[1.1, 0.3, -0.2], [0.1, 0.9, 0.4], [-0.3, 0.2, 1.2]]),
+    # a whole-number gradient typed with integer literals (an int64 ndarray)
+    "shear_i64": np.array([[1, 0, 1], [0, 1, 0], [0, 0, 1]]),
 }
 
 
